@@ -418,37 +418,48 @@ def diagram_label_rule(ctx: Ctx, model, rid: str) -> None:
 
 
 def label_validation_rule(ctx: Ctx, model, rid: str) -> None:
-    """The value stored by Element.set_label is the value the digits-only/ASCII refusals were evaluated on: a label
-    that is all digits would coincide with the running/per-type identifier of another element of the same type."""
+    """Element.set_label interpreted (its AST) on representatives of every class of argument it distinguishes — not a
+    string, empty, blank, padded, all digits (padded or not), non-ASCII, ordinary — starting from an unlabelled and from a
+    labelled element: a string is stored stripped, '' clears the label, digits-only and non-ASCII labels are refused (a label
+    of digits would coincide with another element's identifier), nothing else changes."""
+    from ..miniinterp import InterpRaise, Mini, Obj, module_globals
     sl = model.fi(BASE, "Element.set_label")
-    ctx.instance(rid, "Element.set_label: the stored label is the validated value (digits-only labels refused on what is stored)")
-    stores = [n for n in walk_ordered(sl.node) if isinstance(n, (ast.Assign, ast.AnnAssign)) and norm(n.targets[0] if isinstance(n, ast.Assign) else n.target) == "self._label"]
-    tests = []
-    for n in walk_ordered(sl.node):
-        if isinstance(n, ast.If) and any(isinstance(x, ast.Raise) for x in n.body):
-            for c in calls_in(n.test):
-                if isinstance(c.func, ast.Attribute) and c.func.attr == "isdigit" and not c.args:
-                    tests.append((n, norm(c.func.value)))
-                elif norm(c.func) == "all" and c.args and isinstance(c.args[0], ast.Call) and norm(c.args[0].func) == "map" and len(c.args[0].args) == 2 \
-                        and norm(c.args[0].args[0]) == "str.isdigit":
-                    tests.append((n, norm(c.args[0].args[1])))
-    if len(stores) != 1:
-        raise AnalysisError("Element.set_label: expected exactly one store to self._label")
-    if not tests:
-        ctx.violation(rid, "set_label:digits-refusal", BASE, sl.node, "Element.set_label no longer refuses labels that consist only of digits: such a label coincides with another element's identifier")
-        return
-    test_if, X = tests[0]
-    stored = norm(stores[0].value)
-    # no rebinding of X between the refusal and the store
-    from ..cfg import stmt_of
-    seq = list(walk_ordered(sl.node))
-    i0, i1 = seq.index(test_if), seq.index(stores[0])
-    rebound = [n for n in seq[i0:i1] if isinstance(n, ast.Name) and n.id == X and isinstance(n.ctx, ast.Store)]
-    if stored == X and i0 < i1 and not rebound:
+    g = module_globals(ctx.repo.modules[BASE].tree, {})
+    methods = {n: m.node for n, m in model.classes[f"{BASE}:Element"].methods.items()}
+    cases = [(5, "TypeError"), ("", ""), ("   ", ""), ("ct", "ct"), ("  ct ", "ct"), ("a b", "a b"), ("1", "ValueError"), (" 12 ", "ValueError"), ("2 ", "ValueError"),
+             ("1a", "1a"), ("é", "ValueError"), ("a_1", "a_1")]
+    wit = None
+    n = 0
+    for before in ("", "old"):
+        for arg, want in cases:
+            n += 1
+            me = Obj(Mini(g), methods, {"_label": before})
+            try:
+                out = Mini(g).call_function(sl.node, {"self": me, "label": arg})
+                got = me._label
+                returned_self = out is me
+            except InterpRaise as e:
+                got, returned_self = e.kind, True
+            exp = want
+            if want in ("TypeError", "ValueError") and got == want:
+                ok = me._label == before
+            elif want == "TypeError" or (want == "ValueError" and not (isinstance(arg, str) and arg != arg.strip())):
+                ok = False
+            else:
+                # stored as given or stripped (normalisation of padding is not part of this property); what is stored is
+                # never all digits and never non-ASCII
+                ok = isinstance(got, str) and got in (arg, arg.strip()) and returned_self and not got.isdigit() and got.isascii()
+            if not ok and wit is None:
+                wit = (before, arg, got, exp)
+    ctx.instance(rid, f"Element.set_label on {n} (previous label, argument) cases: stored stripped, '' clears, digits-only/non-ASCII refused, state untouched on refusal")
+    if wit is None:
         ctx.ok()
     else:
-        ctx.violation(rid, "set_label:stored-is-validated", BASE, stores[0],
-                      f"Element.set_label validates {X} but stores {stored}: the stored label can be all digits (e.g. '1 ' → '1') and coincide with the identifier of an unlabelled element")
+        before, arg, got, exp = wit
+        digits = isinstance(arg, str) and arg.strip().isdigit()
+        ctx.violation(rid, "set_label:stored-is-validated" if digits else "set_label:semantics", BASE, sl.node,
+                      f"Element.set_label({arg!r}) on an element labelled {before!r} gives {got!r} instead of {exp!r}"
+                      + (": a label of digits coincides with the identifier of an unlabelled element" if digits else ""))
 
 
 def _numbering(ctx: Ctx, model, found, shapes) -> None:
